@@ -87,6 +87,8 @@ func mintAPReq(w *ktWorld, c map[string]string, s c01Settings, r *rand.Rand, ori
 		ts.kvnoLabel = 0
 	case "k3":
 		ts.kvnoLabel = 3
+	case "k258":
+		ts.kvnoLabel = 258
 	}
 	if c["etLabel"] == "E2" {
 		ts.etLabel = w.E2
@@ -125,7 +127,7 @@ func mintAPReq(w *ktWorld, c map[string]string, s c01Settings, r *rand.Rand, ori
 	case "otherOnly":
 		ts.caddr = types.HostAddresses{otherHostAddr}
 	}
-	if c["pac"] != "none" {
+	if c["pac"] != "none" && pacFor != nil {
 		// the PAC is signed with the key of the entry that PAC verification will look up (same look-up as the ticket)
 		ad, err := pacFor(ts.sealKey, c["pac"])
 		if err != nil {
@@ -133,7 +135,7 @@ func mintAPReq(w *ktWorld, c map[string]string, s c01Settings, r *rand.Rand, ori
 		}
 		ts.authzData = ad
 	}
-	tkt, err := mintTicket(ts)
+	tkt, etp, err := mintTicketParts(ts)
 	if err != nil {
 		return nil, fmt.Errorf("mint ticket: %v", err)
 	}
@@ -180,7 +182,12 @@ func mintAPReq(w *ktWorld, c map[string]string, s c01Settings, r *rand.Rand, ori
 	if ts.start.IsZero() {
 		m.conc["start"] = 0
 	}
-	b, err := ap.Marshal()
+	var b []byte
+	if c["trailer"] == "clearCopy" {
+		b, err = marshalAPReqWithTrailer(ap, etp)
+	} else {
+		b, err = ap.Marshal()
+	}
 	if err == nil {
 		var back messages.APReq
 		if back.Unmarshal(b) == nil {
